@@ -306,11 +306,14 @@ void vector_remove_column(std::vector<T>& data, size_t new_width, size_t pos) {
 // Numeric ID used for case-insensitive comparison of 4 letters.
 // s must have 4 chars or 3 chars + NUL, ' ' and NUL are equivalent in s.
 constexpr int ialpha4_id(const char* s) {
-  return (s[0] << 24 | s[1] << 16 | s[2] << 8 | s[3]) & ~0x20202020;
+  // bytes are taken as unsigned: shifting a negative char is undefined behaviour
+  return (int) (((unsigned) (unsigned char) s[0] << 24 | (unsigned) (unsigned char) s[1] << 16 |
+                 (unsigned) (unsigned char) s[2] << 8 | (unsigned) (unsigned char) s[3]) & ~0x20202020u);
 }
 // Numeric ID used for case-insensitive comparison of 3 letters.
 constexpr int ialpha3_id(const char* s) {
-  return (s[0] << 16 | s[1] << 8 | s[2]) & ~0x20202020;
+  return (int) (((unsigned) (unsigned char) s[0] << 16 | (unsigned) (unsigned char) s[1] << 8 |
+                 (unsigned) (unsigned char) s[2]) & ~0x20202020u);
 }
 
 } // namespace gemmi
